@@ -239,6 +239,11 @@ func judge(s *hx.Session, c occx.Case, o *occx.Outcome) {
 func run(o hx.RunOpts) error {
 	s := hx.NewSession(o, rule)
 	p := hx.NewPrng(o.Seed)
+	kt, err := occx.KeepTracker()
+	if err != nil {
+		return err
+	}
+	s.Rep.Extra = map[string]any{"refetch_keeps_lock_ids": kt}
 	if err := runCase(s, writeSkew()); err != nil {
 		return err
 	}
